@@ -254,8 +254,27 @@ harness(void)
 		/* pull_up frees m when it has to copy: use a heap message */
 		nni_msg *hm = nni_zalloc(sizeof(*hm));
 		memcpy(hm, &m, sizeof(m));
+#ifdef SHARED
+		/* somebody else holds the same message (a copy queued for another subscriber, the sender's retained request):
+		 * the caller must get a message of its own - whatever the header length, 0 included - and the other holder
+		 * keeps an untouched original (C01: nobody observes an altered message; C17: a duplicate is independent) */
+		nni_atomic_set(&hm->m_refcnt, 2);
+#endif
 		nni_msg *r = nni_msg_pull_up(hm);
 		CHECK(r != NULL, "pull_up succeeds");
+#ifdef SHARED
+		CHECK(r != hm, "pull_up of a shared message hands out a private copy, never the shared object itself");
+		CHECK(nni_atomic_get(&r->m_refcnt) == 1, "the copy has exactly one owner");
+		if (r != hm) {
+			CHECK(nni_atomic_get(&hm->m_refcnt) == 1, "the caller's reference to the shared original is given up, the other holder's stays");
+			CHECK(nni_msg_header_len(hm) == hl && nni_msg_len(hm) == len, "the shared original keeps its header and body lengths");
+			usz j = ND(usz);
+			ASSUME(j < len);
+			CHECK(((u8 *) nni_msg_body(hm))[j] == old[j], "the shared original keeps its bytes");
+			if (hl == 0)
+				WITNESS("shared message without header copied");
+		}
+#endif
 		CHECK(nni_msg_header_len(r) == 0 || r != hm || 1, "n/a");
 		CHECK(nni_msg_len(r) == len + hl, "pull_up: body length = header + body");
 		ASSUME(k < len + hl);
